@@ -535,6 +535,10 @@ def run_case(case, M, tier="quick"):
     # specification outputs for the yielded programs: membership and cost
     spec = [(str(m) == "1", None if str(c) == "none" else Fraction(str(c))) for m, c in ans[7]]
     out["spec"] = spec
+    # hypothesis of the order theorem C03_Beap_order_partial, evaluated on the final state of the model
+    out["cl_sorted"] = str(ans[8]) == "1"
+    if not out["cl_sorted"]:
+        corr.append(("the final cost list of the start symbol is not sorted (hypothesis sortedB of C03_Beap_order_partial)", ""))
     ys = flat(steps)
     if len(spec) == len(ys) and m_steps == i_steps:
         for t, (mem, c) in zip(ys, spec):
